@@ -265,9 +265,6 @@ def u_handle_init(ip):
     c.oblige("no_active_epoch_afterwards", eng.f["_epoch"] is None)
 
 
-@unit("C07.sample_for_duration", "C07", [f"{E}._sample_for_duration", f"{E}.current_epoch.fget", f"{EPOCH}::EpochState.time_left"],
-      summaries=[f"{E}._sample_many (proved by C07.sample_many)", f"{E}._split_prng_key (fresh keys, C10)"],
-      assumptions=["tqdm(it) == it", "as_strong_pytree is value-preserving"])
 def u_sample_for_duration(ip):
     """_sample_for_duration(d): raises iff not enough time is left or the chunk size does not divide d; otherwise runs exactly
     d / chunk chunks of `chunk` transitions each, the within-epoch time advancing by `chunk` per chunk (loop invariant), so
@@ -286,14 +283,25 @@ def u_sample_for_duration(ip):
     tie0, time0, dur = ep.f["time_in_epoch"], ep.f["time"], ep.f["config"].f["duration"]
     ghost = {"transitions": z3.IntVal(0)}
 
+    draws = []
+
     def split(ip_, args, kwargs):
         n = kwargs.get("n", args[1] if len(args) > 1 else 1)
-        return PyObj("keys", n=n)
+        k_ = PyObj("keys", n=n)
+        draws.append(k_)
+        return k_
 
     def sample_many(ip_, keys, epoch, kstates, mstate):
         # contract of _sample_many (C07.sample_many): len(keys) transitions at within-epoch times epoch.time_in_epoch + 0..len-1
+        if not (isinstance(keys, PyObj) and keys.name == "keys"):
+            raise Unsupported("chunk keys are not the result of one engine key split (re-sliced / reshaped keys are outside this contract)")
         n = keys.attrs["n"]
-        c.oblige_here = None
+        if keys.attrs.get("window_of") is not None:
+            # one split for the whole duration, consumed in windows: the window of this chunk must begin where the previous one ended
+            ip_.ctx.oblige("each_chunk_gets_a_fresh_engine_draw_of_its_own", And(z3.BoolVal(any(keys.attrs["window_of"] is d_ for d_ in draws)), keys.attrs["start"] == ghost["transitions"]))
+        else:
+            ip_.ctx.oblige("each_chunk_gets_a_fresh_engine_draw_of_its_own", len(draws) >= 1 and keys is draws[-1] and not keys.attrs.get("used"))
+            keys.attrs["used"] = True
         ghost_ok = epoch.f["time_in_epoch"] == tie0 + ghost["transitions"]
         ip_.ctx.oblige("chunk_starts_at_expected_time", ghost_ok)
         ip_.ctx.oblige("chunk_size_is_jitted_duration", n == chunk)
@@ -304,6 +312,7 @@ def u_sample_for_duration(ip):
         return (new_ep, ip_.uf("ks_next", ip_.to_U(kstates)), ip_.uf("ms_next", ip_.to_U(mstate)), z3.Const("pos_chunk", U), z3.Const("info_chunk", U), None, None)
 
     ip.summaries[f"{E}._split_prng_key"] = split
+    ip.models["jax.lax.dynamic_slice_in_dim"] = lambda ip_, arr, start, size, axis=0: PyObj("keys", n=size, window_of=arr, start=ip_.to_z3_any(start) if not is_z3(start) else start)
     eng.f["_sample_many_jitted"] = PyFn(sample_many, "_sample_many_jitted")
 
     def inv(ip_, env):
@@ -339,6 +348,12 @@ def u_sample_for_duration(ip):
     nm = names(trace)
     if "sample_many" in nm:
         c.oblige("each_chunk_stored_once", nm.count("position_chain.append") == nm.count("sample_many") and nm.count("transition_info_chain.append") == nm.count("sample_many"))
+
+
+for _uid, _prop in (("C07.sample_for_duration", "C07"), ("C08.chunks_continue_the_epoch_clock", "C08"), ("C10.chunk_keys", "C10")):
+    unit(_uid, _prop, [f"{E}._sample_for_duration", f"{E}.current_epoch.fget", f"{EPOCH}::EpochState.time_left"],
+         summaries=[f"{E}._sample_many (proved by C07.sample_many)", f"{E}._split_prng_key (fresh keys, C10.engine_key_ownership)"],
+         assumptions=["tqdm(it) == it", "as_strong_pytree is value-preserving"])(u_sample_for_duration)
 
 
 @unit("C07.sample_many", "C07", [f"{E}._sample_many", f"{E}._sample_many.<locals>.scan_f", f"{EPOCH}::EpochState.advance_time"],
@@ -605,3 +620,10 @@ def engine_init_unit(uid, prop):
 
 
 engine_init_unit("C07.engine_init", "C07")
+
+
+# "global time continues across epochs": the epoch states the engine takes from its manager carry consecutive start times = the sum of the
+# earlier accepted durations, whatever their thinning (same harness as C16.observable.*)
+from contracts.c16 import observable_unit  # noqa: E402
+
+observable_unit("interleaved", uid="C07.epoch_start_times_consecutive", prop="C07")
